@@ -82,6 +82,7 @@ class Plan:
         self.trait_vis = "pub "
         self.trait_generics = []      # list of ('lt', "'a", bounds) | ('ty', 'P', bounds_text, default_text|None) | ('const', 'N', 'usize', default|None)
         self.trait_supers = ""
+        self.lt_ty = "&'a u8"         # type of the `ltfn` item: mentions the trait's / the block's lifetime 'a
         self.trait_where = ""
         self.items = [("const", "NAME", False), ("fn", "tag", False), ("fn", "dtag", True)]   # (kind, name, has_default)
         self.dtraits = [DTrait("D0")]
@@ -198,7 +199,7 @@ class Plan:
             elif kind == "method":
                 out.append(f'{vis}fn {name}(&self) -> &\'static str {{ "{tag}" }}')
             elif kind == "ltfn":
-                out.append(f"{vis}fn {name}(x: &'a u8) -> &'a u8 {{ x }}")
+                out.append(f"{vis}fn {name}(x: {self.lt_ty}) -> {self.lt_ty} {{ x }}")
             elif kind == "ufn":
                 out.append(f'{vis}unsafe fn {name}() -> &\'static str {{ "{tag}" }}')
             elif kind == "pfn":
@@ -229,7 +230,7 @@ class Plan:
             elif kind == "method":
                 items.append(f"fn {name}(&self) -> &'static str" + (f' {{ "dflt.{name}" }}' if has_default else ";"))
             elif kind == "ltfn":
-                items.append(f"fn {name}(x: &'a u8) -> &'a u8;")
+                items.append(f"fn {name}(x: {self.lt_ty}) -> {self.lt_ty};")
         uns = "unsafe " if self.trait_unsafe else ""
         return f"{self.trait_vis}{uns}trait {self.trait_name}{gtxt}{self.trait_supers}{self.trait_where} {{ {' '.join(items)} }}"
 
@@ -356,7 +357,7 @@ class Plan:
                 elif kind == "fn":
                     items.append(f"fn {name}() -> &'static str" + (f' {{ "dflt.{name}" }}' if has_default else ";"))
                 elif kind == "ltfn":
-                    items.append(f"fn {name}(x: &'a u8) -> &'a u8;")
+                    items.append(f"fn {name}(x: {self.lt_ty}) -> {self.lt_ty};")
             uns = "unsafe " if self.trait_unsafe else ""
             lines.append(f"pub {uns}trait H{fi}{hgen}{self.trait_supers}{self.trait_where} {{ {' '.join(items)} }}")
             # full list of trait arguments of this family (defaults filled in)
@@ -431,7 +432,7 @@ class Plan:
                 elif kind == "fn":
                     items.append(f"fn {name}() -> &'static str {{ <Self as {href}>::{name}() }}")
                 elif kind == "ltfn":
-                    items.append(f"fn {name}(x: &'a u8) -> &'a u8 {{ <Self as {href}>::{name}(x) }}")
+                    items.append(f"fn {name}(x: {self.lt_ty}) -> {self.lt_ty} {{ <Self as {href}>::{name}(x) }}")
             tref_ = self.trait_name + ("<" + ", ".join(targs_txt) + ">" if targs_txt else "")
             gtxt = "<" + ", ".join(gens) + ">" if gens else ""
             lines.append(f"{uns}impl{gtxt} {tref_} for {pr(named(f.self_ty, fam_names))} where {', '.join(where)} {{ {' '.join(items)} }}")
@@ -765,6 +766,35 @@ class PlanGen:
             shapes.add(outer)
             if len(f.members) >= 1:
                 plan.families.append(f)
+        self.populate(plan)
+        return plan
+
+    def single_member_multi_key_plan(self):
+        """directed shape (seeded change C07d): families with ONE member whose dispatched parameter carries bindings of two or
+        three DIFFERENT dispatch traits (`impl<T: D0<G = A> + D1<G = B>> Kita for W1<T>`): the keys of such a family are laid
+        out by `AssocBoundsGroup::new` alone, no later member re-orders them"""
+        r = self.r
+        plan = Plan()
+        plan.dtraits = [DTrait("D0"), DTrait("D1", assocs=("G", "H")), DTrait("D2", assocs=("G",), arity=1)][: self.pick([2, 3, 3])]
+        plan.items = [("const", "NAME", False)] + ([("fn", "tag", False)] if r.random() < 0.5 else [])
+        wraps = ["W1", "Box", "Vec", "Option"]
+        r.shuffle(wraps)
+        nfam = self.pick([1, 2, 3])
+        for fi in range(nfam):
+            self_ty = ("ctor", wraps[fi], [("aty", ("tp", 0))]) if (nfam > 1 or r.random() < 0.5) else ("tp", 0)
+            dts = list(range(len(plan.dtraits)))
+            r.shuffle(dts)
+            keys = []
+            for dt in dts[: self.pick([2, 2, len(dts)])]:
+                d = plan.dtraits[dt]
+                dargs = [leaf(self.pick(["u8", "i32"])) for _ in range(d.arity)]
+                for a in (d.assocs if r.random() < 0.4 else [self.pick(d.assocs)]):
+                    keys.append(Key(("tp", 0), dt, dargs, a))
+            row = [leaf(self.pick(MARKERS)) for _ in keys]
+            m = Member({}, row, 1)
+            m.names = self.names(1)
+            m.inline = {ki: r.random() < 0.7 for ki in range(len(keys))}
+            plan.families.append(Family(self_ty, [], 1, keys, [m]))
         self.populate(plan)
         return plan
 
@@ -1113,9 +1143,11 @@ class PlanGen:
         r = self.r
         plan = Plan()
         plan.dtraits = [DTrait("D0")] + ([DTrait("D1", assocs=("G", "H"))] if r.random() < 0.4 else [])
-        has_lt = r.random() < 0.35
+        has_lt = r.random() < 0.4
         ntp = self.pick([1, 1, 2])
         has_const = r.random() < 0.35
+        if has_lt and r.random() < 0.4:
+            ntp, has_const = 0, False      # a trait whose only parameters are lifetimes (seeded change C16d)
         gens = []
         if has_lt:
             gens.append(("lt", "'a", ""))
@@ -1135,6 +1167,7 @@ class PlanGen:
         plan.items = [("const", "NAME", False)] + ([("fn", "tag", False)] if r.random() < 0.5 else []) + ([("fn", "dtag", True)] if r.random() < 0.4 else [])
         if has_lt:
             plan.items.append(("ltfn", "lt", False))
+            plan.lt_ty = self.pick(["&'a u8", "&'a u8", "Option<&'a u8>", "core::result::Result<&'a u8, Vec<&'a str>>", "(u8, Box<&'a [u8]>)"])
         nfam = self.pick([1, 2, 2, 3])
         sigs = []
         tries = 0
@@ -1238,8 +1271,57 @@ class PlanGen:
         return plan
 
     # ------------------------------------------------------------------ ?Sized (C15)
+    def unsized_diagonal_plan(self):
+        """directed shape (seeded change C15d/C02d): a family over (Box<T0>, Box<T1>) keyed on ONE bare parameter that some
+        general member relaxes with ?Sized, plus a nested member with the diagonal instance (Box<V<X>>, Box<V<X>>) bounding
+        V<X>: the reverse substitution of its bound has two images (_0 and _1), `intersection` yields two alternatives of
+        which only one is keyed like the family; the relaxed key parameter must stay ?Sized in the main impl."""
+        r = self.r
+        plan = Plan()
+        plan.dtraits = [DTrait("D0")]
+        plan.items = [("const", "NAME", False)] + ([("fn", "tag", False)] if r.random() < 0.5 else [])
+        wrap = self.pick(["Vec", "Option", "W1"])
+        V = lambda t: ("ctor", wrap, [("aty", t)])
+        B = lambda t: ("ctor", "Box", [("aty", t)])
+        T0, T1 = ("tp", 0), ("tp", 1)
+        self_ty = self.pick([("tuple", [B(T0), B(T1)]), ("ctor", "W2", [("aty", B(T0)), ("aty", B(T1))])])
+        kp = self.pick([0, 1, 1])
+        keys = [Key(("tp", kp), 0, [], "G")]
+        marks = r.sample(MARKERS, 3)
+        members = []
+        for i in range(self.pick([1, 2])):
+            m = Member({}, [leaf(marks[i])], 2)
+            m.names = self.names(2)
+            m.inline = {0: r.random() < 0.6}
+            m.unsized = {kp} if (i == 0 or r.random() < 0.5) else set()
+            m.unsized_where = r.random() < 0.4
+            members.append(m)
+        X = ("tp", 0)
+        nm = Member({0: ("ty", V(X)), 1: ("ty", V(X))}, [leaf(marks[2])], 1)
+        nm.names = self.names(1)
+        nm.inline = {0: False}
+        members.append(nm)
+        r.shuffle(members)
+        plan.families = [Family(self_ty, [], 2, keys, members)]
+        plan.notes["directed"] = "diagonal nested member next to a relaxed key parameter"
+        plan.notes["keep_plain"] = True
+        plan.world, plan.plain, plan.probes = [], [], []
+        for mi, m in enumerate(members):
+            saved = m.unsized
+            m.unsized = set()
+            plan.probes.append(self.witness(plan, 0, mi))
+            if m.theta == {}:
+                m.unsized = {0, 1}
+                for _ in range(2):
+                    plan.probes.append(self.witness(plan, 0, mi))
+            m.unsized = saved
+        self.finish_world(plan)
+        return plan
+
     def unsized_plan(self, d7=None):
         r = self.r
+        if d7 is None and r.random() < 0.15:
+            return self.unsized_diagonal_plan()
         plan = Plan()
         plan.dtraits = [DTrait("D0"), DTrait("D1", assocs=("G", "H"))][: self.pick([1, 2])]
         plan.items = [("const", "NAME", False)] + ([("fn", "tag", False)] if r.random() < 0.5 else [])
@@ -1414,6 +1496,7 @@ class PlanGen:
                     m.vis["uraw"] = v_
         if has_lt and use_ltfn:
             plan.items.append(("ltfn", "lt", False))
+            plan.lt_ty = self.pick(["&'a u8", "&'a u8", "Option<&'a u8>", "core::result::Result<&'a u8, Vec<&'a str>>", "(u8, Box<&'a [u8]>)"])
             for f in plan.families:
                 for m in f.members:
                     m.vis["lt"] = f.members[0].vis.get("NAME", "")
